@@ -435,8 +435,8 @@ def c11(tier):
                     same += 1
                     continue
             keys = ["deco:" + c["_deco"]]
-            if c.get("_mctx") == "call-gap":
-                keys.append("gap:fnmacro-call")
+            if c.get("_mctx") == "call-gap" and c.get("_nl"):
+                keys.append("gap:fnmacro-call-newline")     # (layout on the same line between the name and the parenthesis expands since a7f78ce)
             if c.get("_mctx") == "in-args" and c.get("_nl"):
                 keys.append("gap:fnmacro-args-newline")
             hit = [kf[k] for k in keys if k in kf]
